@@ -480,6 +480,26 @@ func (rw *rewriter) call(n *ast.CallExpr) {
 			case "Cond.Wait":
 				direct = "CondWait"
 			}
+			// sync.Pool of the code under test: which object a Get returns is decided by the simulator
+			// (a last-in-first-out free list shared by all callers), not by the runtime's per-P caches and GC
+			if recv == "Pool" && (fn.Name() == "Get" || fn.Name() == "Put") {
+				if rt := rw.info.TypeOf(sel.X); rt != nil {
+					var recvExpr ast.Expr
+					if _, isPtr := rt.Underlying().(*types.Pointer); isPtr {
+						recvExpr = sel.X
+					} else if rw.addressable(sel.X) {
+						recvExpr = &ast.UnaryExpr{Op: token.AND, X: sel.X}
+					}
+					if recvExpr != nil && rw.isSyncType(rt, recv) {
+						rw.used = true
+						rw.site("pool", n.Pos(), fn.Name())
+						n.Fun = &ast.SelectorExpr{X: ast.NewIdent(simrtName), Sel: ast.NewIdent("Pool" + fn.Name())}
+						n.Args = append([]ast.Expr{recvExpr}, n.Args...)
+						return
+					}
+				}
+				rw.uncontrolled("sync.Pool used through a form the rewriter does not reach", n.Pos())
+			}
 			if direct != "" {
 				if rt := rw.info.TypeOf(sel.X); rt != nil {
 					var recvExpr ast.Expr
